@@ -36,7 +36,7 @@ def main():
         rc, out = sh(["git", "-C", REPO, "worktree", "add", "-q", "--detach", wt, "HEAD"])
         if rc != 0:
             print(out); return 2
-        env = dict(os.environ, PYTHONPATH=wt, PYTHONDONTWRITEBYTECODE="1")
+        env = dict(os.environ, PYTHONPATH=wt, PYTHONDONTWRITEBYTECODE="1", TORCHTT_REPO=wt, TT_CPP_CACHE=os.path.join(wt, "_cppcache"))
         rc, out = sh([PY, os.path.join(seed, "demo.py")], cwd=wt, env=env, timeout=900)
         ev["demo_clean"] = "PASS" if rc == 0 else "FAIL(rc=%d)" % rc
         rc, out = sh(["git", "-C", wt, "apply", patch])
